@@ -561,7 +561,7 @@ def intersections_lattice(ctx):
             try:
                 res = sq0.intersect(o)
                 coll = sq0.intersect(g.LineCollection([o.array]) if what == "line" else _SC(np.array([o.array])))
-                ok = all(bool(sq0.contains(x)) and bool(o.contains(x)) for x in res) and len(res) == sum(r.size // 4 for r in coll)
+                ok = all(bool(sq0.contains(x)) and bool(o.contains(x)) for x in res) and len(res) == sum(np.asarray(r.array).size // 4 for r in coll)
                 w["got"] = [np.asarray(x.array).tolist() for x in res]
             except Exception as e:
                 ok = False
